@@ -281,6 +281,13 @@ def ok_values(b):
                     others.append((dsite, a, "err"))
                 else:
                     others.append((dsite, a, "other"))
+                    core = a
+                    for _ in range(4):
+                        if core[0] in ("ctx", "try"):
+                            core = strip_load(core[1])
+                    if core[0] == "call":
+                        # a fallible step's own Result handed back: its success is the function's success
+                        oks.append((dsite, payload(a), a))
     return oks, others
 
 
@@ -413,8 +420,31 @@ def sz345(F, R):
     # ---- SZ5 codec family
     sp = sers[0].path if sers else None
     dp = de.path
+    def codec_of(ev):
+        """canonical description of the bincode configuration a (de)serialisation call uses"""
+        if ev is None:
+            return None
+        if ev.path in ("bincode::serialize", "bincode::deserialize"):
+            return ("options", "with_fixint_encoding", "allow_trailing_bytes")      # what bincode 1.x's free functions use
+        if ev.path in ("bincode::Options::serialize", "bincode::Options::deserialize") and ev.args:
+            chain = []
+            x = strip_load(ev.args[0])
+            for _ in range(8):
+                if x[0] == "call" and x[1].startswith("bincode::") and x[2]:
+                    if any(strip_load(a)[0] not in ("call",) for a in x[2][1:]):
+                        return None         # an option with a run-time argument (a limit): compare literally instead
+                    chain.append(x[1].split("::")[-1])
+                    x = strip_load(x[2][0])
+                    continue
+                break
+            if x[0] == "call" and x[1] in ("bincode::options", "bincode::DefaultOptions::new", "bincode::config::DefaultOptions::new") and not x[2]:
+                return tuple(["options"] + list(reversed(chain)))
+        return None
+    sc, dc = codec_of(sers[0] if sers else None), codec_of(de)
     if sp == "bincode::serialize" and dp == "bincode::deserialize":
         R.ok("SZ5", de.where(), "save and load use the same bincode configuration (bincode::serialize / bincode::deserialize)")
+    elif sc is not None and sc == dc and {sp.split("::")[-1], dp.split("::")[-1]} == {"serialize", "deserialize"}:
+        R.ok("SZ5", de.where(), "save and load use the same bincode configuration (%s)" % ".".join(sc))
     else:
         R.bad("SZ5", "SZ5/Sodg/codec-pair", de.where(),
               "save() and load() do not use the matching pair of the same bincode configuration (%s vs %s)" % (sp, dp))
